@@ -660,8 +660,21 @@ class LanguageCPP(Language):
             result = "/// @{ Static association definitions\n" + result + "\n/// @}"
         return result.rstrip("\n")
 
-    def GetOperationPerVisibility(self, classObj, is_impl, visibility="all", REALIZING_CLASS = ""):
+    def GetOperationSignature(self, classObj, operation):
+        """
+        What makes two operations the same member function: name, parameter types (with array extents) and constness.
+        """
+        types = []
+        for param in operation.PARAMETERS:
+            tuples = self.GetTypeAndNameFromMultiplicityAndModifier(classObj, param["type"].strip(), param["modifier"].strip(), param["multiplicity"].strip(), "")
+            types.append((param["const"].strip() + " " + tuples[0]).lstrip() + tuples[1])
+        return (operation.NAME.strip(), tuple(types), operation.IS_CONST)
+
+    def GetOperationPerVisibility(self, classObj, is_impl, visibility="all", REALIZING_CLASS = "", DECLARED = None):
         result = ""
+        if not REALIZING_CLASS:
+            # Operations the class declares itself are not emitted a second time when it also realizes them from an interface.
+            DECLARED = set(self.GetOperationSignature(classObj, op) for op in classObj.OPERATIONS)
         # First see if we realize some base-classes.
         realized_result = ""
         for id, inheritance in classObj.parent_classDiagram.inheritence.items():
@@ -670,11 +683,13 @@ class LanguageCPP(Language):
                     # get the class we are realizing...
                     realizeObj = classObj.parent_classDiagram.classes[inheritance.CLASS_FROM_ID]
                     if realizeObj.PURE_VIRTUAL_INTERFACE:
-                        realized_result = realized_result + self.GetOperationPerVisibility(realizeObj,is_impl,visibility, (classObj.NAME if not REALIZING_CLASS else REALIZING_CLASS)) + "\n"
+                        realized_result = realized_result + self.GetOperationPerVisibility(realizeObj,is_impl,visibility, (classObj.NAME if not REALIZING_CLASS else REALIZING_CLASS), DECLARED) + "\n"
         if realized_result:
             result = realized_result
 
         for operation in classObj.OPERATIONS:
+            if REALIZING_CLASS and self.GetOperationSignature(classObj, operation) in DECLARED:
+                continue  # the realizing class declares this operation itself
             if visibility.lower().strip() == operation.VISIBILITY.lower().strip() or visibility.lower().strip() == 'all':
 
                 is_constructor = operation.NAME.strip() == classObj.NAME.strip()
